@@ -7,6 +7,6 @@ cd "$DIR/harness" || exit 1
 cargo build --release || exit 1
 cargo build --profile checked || exit 1
 if [ -d "$DIR/fuzz" ] && [ -f "$DIR/fuzz/Cargo.toml" ]; then
-  (cd "$DIR/fuzz" && cargo +nightly fuzz build >/dev/null 2>"$DIR/fuzz/build.log") || echo "note: fuzz targets did not build (thorough tier will report exit 2 for the fuzz stage); see fuzz/build.log" >&2
+  (cd "$DIR/harness" && cargo +nightly fuzz build --fuzz-dir "$DIR/fuzz" >/dev/null 2>"$DIR/fuzz/build.log") || echo "note: fuzz targets did not build (thorough tier will report exit 2 for the fuzz stage); see fuzz/build.log" >&2
 fi
 echo "setup done"
